@@ -68,6 +68,9 @@ type BootArgs struct {
 	Recover  bool     `json:"recover,omitempty"`
 	ExtraYml string   `json:"extraYaml,omitempty"`
 	Debug    bool     `json:"debug,omitempty"`
+	CrashLog string   `json:"crashLog,omitempty"` // record every mutating fs operation under <dir>/data into this file (crashfs)
+	RelPaths bool     `json:"relPaths,omitempty"` // configure dataPath relative to cwd (= dir) so that a copy of the directory is self-contained
+	RecoverB bool     `json:"recoverBoot,omitempty"` // booting on an existing directory: wait for / run the start-up recovery before answering
 	Server   bool     `json:"server,omitempty"` // boot the whole server (real routers on loopback ports) through StartSiglensServer
 	Features []string `json:"features,omitempty"`
 }
@@ -87,6 +90,11 @@ func boot(raw json.RawMessage) (interface{}, error) {
 		a.Dir += "/"
 	}
 	DataDir = a.Dir
+	if a.CrashLog != "" {
+		if err := installCrashHook(a.CrashLog, a.Dir+"data/"); err != nil {
+			return nil, err
+		}
+	}
 	if err := os.MkdirAll(a.Dir+"data/", 0755); err != nil {
 		return nil, err
 	}
@@ -98,6 +106,9 @@ func boot(raw json.RawMessage) (interface{}, error) {
 		return nil, err
 	}
 	yaml := fmt.Sprintf("dataPath: %sdata/\nlog:\n  logPrefix: %slogs/\n%s", a.Dir, a.Dir, a.ExtraYml)
+	if a.RelPaths {
+		yaml = fmt.Sprintf("dataPath: data/\nlog:\n  logPrefix: logs/\n%s", a.ExtraYml)
+	}
 	if a.Server {
 		IngestPort, QueryPort = freePort(), freePort()
 		yaml += fmt.Sprintf("ingestListenIP: 127.0.0.1\nqueryListenIP: 127.0.0.1\ningestPort: %d\nqueryPort: %d\n", IngestPort, QueryPort)
@@ -167,6 +178,23 @@ func boot(raw json.RawMessage) (interface{}, error) {
 		if err := f(&a); err != nil {
 			return nil, err
 		}
+	}
+	if a.RecoverB {
+		// production starts the recovery of segments missing from segmeta.json as a goroutine; wait for it, then run the
+		// same (idempotent) step synchronously so that answers do not depend on its timing
+		for i := 0; i < 500; i++ {
+			busy := false
+			for sig := range GoroutineSignatures() {
+				if strings.Contains(sig, "initSyncSegMetaForAllIds") {
+					busy = true
+				}
+			}
+			if !busy {
+				break
+			}
+			time.Sleep(2 * time.Millisecond)
+		}
+		query.VerifSyncSegMeta(serverutils.GetMyIds())
 	}
 	booted = true
 	return map[string]interface{}{"dir": a.Dir}, nil
@@ -436,7 +464,17 @@ func goroutinesOp(raw json.RawMessage) (interface{}, error) {
 	return map[string]interface{}{"sigs": s}, nil
 }
 
+func markOp(raw json.RawMessage) (interface{}, error) {
+	var a struct {
+		Text string `json:"text"`
+	}
+	_ = json.Unmarshal(raw, &a)
+	crashMark(a.Text)
+	return nil, nil
+}
+
 func init() {
+	Register("mark", markOp)
 	Register("boot", boot)
 	Register("bulk", bulk)
 	Register("ingest", ingest)
